@@ -115,3 +115,21 @@ func init() {
 		rest = rest[1:]
 	}`}}})
 }
+
+func init() {
+	addMutant(Mutant{Name: "benign-patterns-copied-at-construction", Benign: true, Props: []string{"C11", "C15", "C16"},
+		Why: "the authorizer copies every pattern list when it is built, keeping every pattern (one append per element)",
+		Edits: []Edit{{File: "cmds/server/config/authorizers/stringy/stringy.go", Old: `	a.ReduceAll(&user)
+`, New: `	a.ReduceAll(&user)
+	cmds := make([]config.Command, 0, len(user.Commands))
+	for _, c := range user.Commands {
+		match := make([]string, 0, len(c.Match))
+		for _, m := range c.Match {
+			match = append(match, m)
+		}
+		c.Match = match
+		cmds = append(cmds, c)
+	}
+	user.Commands = cmds
+`}}})
+}
